@@ -8,7 +8,7 @@ from hypothesis import strategies as st
 
 from .. import models as M
 from .. import rulespace as RS
-from ..drive import eval_layer_rule, make_evaluable
+from ..drive import eval_layer_rule, make_evaluable, reuse_aware, warmup
 
 ID = "C05"
 MOD = __name__
@@ -94,6 +94,7 @@ def check_with(tree, imports, layer_defs, rule, ev) -> dict:
     return {"violations": viols, "nontrivial": touched, "labels": labels}
 
 
+@reuse_aware
 def check_case(spec: dict) -> dict:
     tree, imports = spec["tree"], [tuple(e) for e in spec["imports"]]
     ev = make_evaluable(tree, imports)
@@ -140,12 +141,19 @@ def exh_shard(arg, stt, deadline) -> None:
             return
         i += 1
         ev = make_evaluable(tree, imports)
-        for layer_defs, rules in plans:
-            for rule in rules:
-                res = check_with(tree, imports, layer_defs, rule, ev)
-                res["labels"] = [res["labels"][1], res["labels"][3], res["labels"][4]] + res["labels"][5:]
-                stt.record({"tree": tree, "imports": imports, "layers": layer_defs, "rule": rule}, res,
-                           enumerated=True, sample=(i % 41 == 7 and rule["exc"] and rule["verb"] == "should"))
+        # every 4th import relation: each layer-rule object is first applied to another architecture (other modules match
+        # the layers' regexes there, some listed modules are absent)
+        warm = RS.T4_DECOY if (i % 4 == 1 and tkey != "TX") else None
+        with warmup(warm):
+            for layer_defs, rules in plans:
+                for rule in rules:
+                    res = check_with(tree, imports, layer_defs, rule, ev)
+                    res["labels"] = [res["labels"][1], res["labels"][3], res["labels"][4]] + res["labels"][5:]
+                    spec = {"tree": tree, "imports": imports, "layers": layer_defs, "rule": rule}
+                    if warm:
+                        spec["warm"] = warm
+                        res["labels"].append("reused-rule-object")
+                    stt.record(spec, res, enumerated=True, sample=(i % 41 == 7 and rule["exc"] and rule["verb"] == "should"))
 
 
 # ------------------------------------------------------------------------------ random
@@ -178,7 +186,13 @@ def cases(draw):
     for li in range(n_layers):
         mods = sorted(u for u, a in assign.items() if a == li)
         if draw(st.booleans()):
-            layer_defs.append({"name": f"L{li}", "kind": "regex", "regex": layer_regex(mods), "modules": mods})
+            rx = layer_regex(mods)
+            if draw(st.booleans()):
+                # the same modules with the root component left open (\w+), if that still matches exactly these modules
+                open_rx = "|".join(r"\w+" + re.escape(m[m.index("."):]) + "$" for m in mods if "." in m)
+                if open_rx and sorted(m for m in tree if re.match(open_rx, m)) == mods:
+                    rx = open_rx
+            layer_defs.append({"name": f"L{li}", "kind": "regex", "regex": rx, "modules": mods})
         else:
             layer_defs.append({"name": f"L{li}", "kind": "names", "modules": mods,
                                "as_str": len(mods) == 1 and draw(st.booleans())})
@@ -196,7 +210,15 @@ def cases(draw):
     layers = {ld["name"]: ld["modules"] for ld in layer_defs}
     focus = set(M.layer_den(tree, layers[subj]))
     imports = draw(RS.import_relation(tree, focus=focus, max_edges=14))
-    return {"tree": tree, "imports": [list(x) for x in imports], "layers": layer_defs, "rule": rule}
+    spec = {"tree": tree, "imports": [list(x) for x in imports], "layers": layer_defs, "rule": rule}
+    w = draw(st.integers(0, 5))
+    if w == 0:
+        spec["warm"] = draw(RS.decoys(tree))
+    elif w == 1:
+        # the same module tree under another root name, with its own imports
+        t2 = sorted(("p" + m[1:]) if (m == "q" or m.startswith("q.")) else m for m in tree)
+        spec["warm"] = {"tree": t2, "imports": [list(e) for e in draw(RS.import_relation(t2, max_edges=8))]}
+    return spec
 
 
 def strategy(tier):
